@@ -26,6 +26,9 @@ pub struct Config {
     pub block: usize,
     pub arm: Forced,
     pub origin: String,
+    /// look-ahead rows the striped sequence was configured with BEFORE being configured for this motif
+    /// (a sequence object reused after a scan with a shorter motif); None = freshly striped
+    pub pre_wrap: Option<usize>,
 }
 
 impl Config {
@@ -39,6 +42,7 @@ impl Config {
             "block_size": self.block,
             "arm": cfgs::arm_name(self.arm),
             "origin": self.origin,
+            "pre_wrap": self.pre_wrap,
         })
     }
     pub fn from_json(v: &Value) -> Config {
@@ -53,6 +57,7 @@ impl Config {
                 _ => Forced::Avx2,
             },
             origin: v["origin"].as_str().unwrap_or("").into(),
+            pre_wrap: v["pre_wrap"].as_u64().map(|x| x as usize),
         }
     }
 }
@@ -110,6 +115,9 @@ pub fn run_scanner(cfg: &Config, after: &After) -> Result<RunOut, String> {
             let pssm = model::scoring::<Dna>(&cfg.matrix);
             let syms = model::to_symbols::<Dna>(&cfg.seq);
             let mut striped: StripedSequence<Dna, U32> = Pipeline::<Dna, Dispatch>::dispatch().stripe(&syms);
+            if let Some(w) = cfg.pre_wrap {
+                striped.configure_wrap(w);
+            }
             striped.configure(&pssm);
             let mut sc = Scanner::new(&pssm, &striped);
             sc.threshold(cfg.threshold);
@@ -289,7 +297,9 @@ pub fn matrix_from_digits(digits: &[u8], wild: usize) -> Vec<Vec<f32>> {
             v.push(match wild {
                 0 => f32::NEG_INFINITY,
                 // finite wildcard column (user-built ScoringMatrix::new): lower than every row entry
-                _ => -3.0,
+                1 => -3.0,
+                // finite wildcard ABOVE the row minimum (a "neutral" wildcard: mean of the row)
+                _ => (r[0] + r[1] + r[2] + r[3]) / 4.0,
             });
             v
         })
@@ -435,7 +445,7 @@ fn sweep(mode: Mode, ctx: &mut Ctx, rep: &mut Report) {
     if ctx.wants("small") {
         sink.rep.space(
             "small",
-            "ALL 3906 strings over {A,C,T,G,N} of length 0..=5 (covers empty, L<M, L=M) x matrices: all 8^M for M<=2 from an 8-row tie/near-tie menu (incl. a designed pair whose 8-bit order inverts the real order) + every 16th of M=3 (thorough: all) x wildcard column {-inf, finite} \
+            "ALL 3906 strings over {A,C,T,G,N} of length 0..=5 (covers empty, L<M, L=M) x matrices: all 8^M for M<=2 from an 8-row tie/near-tie menu (incl. a designed pair whose 8-bit order inverts the real order) + every 16th of M=3 (thorough: all) x wildcard column {-inf, finite below every entry, finite row mean} \
              x thresholds {below min, min-1, every distinct attainable score, midpoints, max, above max} x block sizes {1,256} x dispatcher arms {generic,sse2,avx2}; \
              non-trivial = L>=M",
         );
@@ -445,7 +455,7 @@ fn sweep(mode: Mode, ctx: &mut Ctx, rep: &mut Report) {
                 if m == 3 && ctx.quick() && mi % 16 != 1 {
                     continue;
                 }
-                for wild in 0..2 {
+                for wild in 0..3 {
                     let idx = base;
                     base += 1;
                     if !ctx.mine(idx) {
@@ -456,7 +466,7 @@ fn sweep(mode: Mode, ctx: &mut Ctx, rep: &mut Report) {
                         for si in 0..5u64.pow(l as u32) {
                             let seq = model::nth_word(si, l, 5);
                             let ts = threshold_menu(&matrix, &seq, if ctx.quick() { 4 } else { 8 });
-                            let probe = Config { seq: seq.clone(), matrix: matrix.clone(), threshold: 0.0, block: 1, arm: Forced::Generic, origin: String::new() };
+                            let probe = Config { seq: seq.clone(), matrix: matrix.clone(), threshold: 0.0, block: 1, arm: Forced::Generic, origin: String::new(), pre_wrap: None };
                             let or = Oracle::new(&probe);
                             for &t in &ts {
                                 for &block in &[1usize, 256] {
@@ -468,6 +478,7 @@ fn sweep(mode: Mode, ctx: &mut Ctx, rep: &mut Report) {
                                             block,
                                             arm,
                                             origin: format!("small L={} seq#{} M={} matrix#{} wild={}", l, si, m, mi, wild),
+                                            pre_wrap: None,
                                         };
                                         sink.config(&cfg, &or);
                                         if l == 4 && si == 200 && mi == 1 && block == 1 && arm == Forced::Avx2 {
@@ -492,7 +503,7 @@ fn sweep(mode: Mode, ctx: &mut Ctx, rep: &mut Report) {
         sink.rep.space(
             "shapes",
             "every length L in 0..=170 (R<=6 sequence rows, so with block sizes 1..8 every relative position of a block boundary w.r.t. the sequence rows and the M-1 look-ahead rows occurs) plus L = 8192 +- {0,32,64} (+-1) \
-             x 3 contents (de Bruijn cycle, constant, period-5 with wildcard) x matrix menu (M in 1..=4, 14 matrices; thorough 40) x wildcard {-inf, finite} x thresholds (<= 4 (thorough 8) evenly ranked attainable scores, their midpoints, + extremes) \
+             x 3 contents (de Bruijn cycle, constant, period-5 with wildcard) x matrix menu (M in 1..=4, 14 matrices; thorough 40) x wildcard column {-inf, finite below every entry, finite row mean} x striped sequence {fresh, previously configured for a shorter motif} x thresholds (<= 4 (thorough 8) evenly ranked attainable scores, their midpoints, + extremes) \
              x block sizes {1,2,3,4,5,7,8,256} x 3 dispatcher arms",
         );
         let mut mats: Vec<(usize, u64)> = vec![(1, 0), (1, 3), (2, 7), (2, 8), (2, 20), (3, 44), (3, 100), (3, 215), (4, 0), (4, 333), (4, 800), (4, 1295), (2, 28), (3, 86), (2, 55), (3, 6 * 64 + 7 * 8 + 1), (4, 6 * 512 + 7 * 64 + 8 + 5)];
@@ -515,7 +526,7 @@ fn sweep(mode: Mode, ctx: &mut Ctx, rep: &mut Report) {
                     if ctx.quick() && !big && l > 70 && l % 32 > 2 && (mm + l) % 3 != 0 {
                         continue;
                     }
-                    for wild in 0..2 {
+                    for wild in 0..3 {
                         let idx = base;
                         base += 1;
                         if !ctx.mine(idx) {
@@ -523,7 +534,7 @@ fn sweep(mode: Mode, ctx: &mut Ctx, rep: &mut Report) {
                         }
                         let matrix = matrix_from_digits(&model::nth_word(mi, m, nrows), wild);
                         let ts = threshold_menu(&matrix, &seq, if big { 3 } else if ctx.quick() { 4 } else { 8 });
-                        let probe = Config { seq: seq.clone(), matrix: matrix.clone(), threshold: 0.0, block: 1, arm: Forced::Generic, origin: String::new() };
+                        let probe = Config { seq: seq.clone(), matrix: matrix.clone(), threshold: 0.0, block: 1, arm: Forced::Generic, origin: String::new(), pre_wrap: None };
                         let or = Oracle::new(&probe);
                         let blocks: Vec<usize> = if big { vec![256, 255, 7, 300] } else { BLOCKS.to_vec() };
                         for &t in &ts {
@@ -533,13 +544,17 @@ fn sweep(mode: Mode, ctx: &mut Ctx, rep: &mut Report) {
                                     if big && mode == Mode::C03 && t < ts[ts.len() / 2] {
                                         continue;
                                     }
+                                    // the striped sequence object may have been used before with a shorter motif:
+                                    // every second block size gets a sequence pre-configured with M-2 (or 1) look-ahead rows
+                                    let pre_wrap = if m >= 2 && block % 2 == 0 { Some((m - 1).saturating_sub(1).max(1).min(m - 1)) } else { None };
                                     let cfg = Config {
                                         seq: seq.clone(),
                                         matrix: matrix.clone(),
                                         threshold: t,
                                         block,
                                         arm,
-                                        origin: format!("shapes L={} content={} M={} matrix#{} wild={}", l, pat, m, mi, wild),
+                                        origin: format!("shapes L={} content={} M={} matrix#{} wild={} pre_wrap={:?}", l, pat, m, mi, wild, pre_wrap),
+                                        pre_wrap,
                                     };
                                     sink.config(&cfg, &or);
                                     if l == 70 && pat == 0 && mm == 5 && block == 2 && arm == Forced::Sse2 {
